@@ -351,13 +351,42 @@ type verifyOut struct {
 	Ops   int               `json:"ops"`
 }
 
-// crash-verify <dir> <side> <casefile>
+// crash-verify <dir> <side> <casefile> [plain|crashafter|second]
+//
+//	plain       Open, read, commit to every second key, Close, Open, read, Close
+//	crashafter  Open, read, commit to every second key, then die WITHOUT Close (a second, plain crash
+//	            right after acknowledged post-recovery commits); writes the first half of the result
+//	second      Open, read (the "post" half of the result), Close
 func crashVerifyMain(args []string) int {
 	dir, side := args[0], args[1]
 	p := readProgramFile(args[2])
+	mode := "plain"
+	if len(args) > 3 {
+		mode = args[3]
+	}
 	installKill(dir, side, 0, "verify")
 	db := eng.Open(dir, p.Cfg)
 	out := verifyOut{State: map[string]string{}, Post: map[string]string{}}
+	if mode == "second" {
+		if b, err := os.ReadFile(filepath.Join(side, "verify1.json")); err == nil {
+			json.Unmarshal(b, &out)
+			out.State = unhexMap(out.State)
+			out.Post = map[string]string{}
+		}
+		db.View(func(tx *originium.Txn) error {
+			for _, k := range p.Keys {
+				if v, ok := tx.Get(k); ok {
+					out.Post[k] = string(v)
+				}
+			}
+			return nil
+		})
+		db.Close()
+		out.State, out.Post = hexMap(out.State), hexMap(out.Post)
+		b, _ := json.Marshal(out)
+		os.WriteFile(filepath.Join(side, "verify.json"), b, 0644)
+		return 0
+	}
 	out.Ops = killTotal()
 	db.View(func(tx *originium.Txn) error {
 		for _, k := range p.Keys {
@@ -377,6 +406,12 @@ func crashVerifyMain(args []string) int {
 		if err := db.Update(func(tx *originium.Txn) error { return tx.Set(kk, []byte("post-"+kk)) }); err != nil {
 			panic(fmt.Sprintf("post-recovery Update returned %v", err))
 		}
+	}
+	if mode == "crashafter" {
+		out.State = hexMap(out.State)
+		b, _ := json.Marshal(out)
+		os.WriteFile(filepath.Join(side, "verify1.json"), b, 0644)
+		os.Exit(0) // no Close: the acknowledged post-recovery commits live in the wal only
 	}
 	db.Close()
 	db = eng.Open(dir, p.Cfg)
@@ -613,13 +648,28 @@ type crashCaseCtx struct {
 	res      *core.Result
 	focus    string
 	classes  map[string]int64
+	nverify  int
 }
 
 // verifyAndJudge runs the recovery child on dir and files the judgements.
 func (cc *crashCaseCtx) verifyAndJudge(dir, side string, st ackState, atomic bool, where string, cp crashPoint) {
 	os.Remove(filepath.Join(side, "verify.json"))
+	os.Remove(filepath.Join(side, "verify1.json"))
 	listing := listDir(dir)
-	code, out := child(cc.env, "crash-verify", dir, side, cc.caseFile)
+	// every third recovery is followed by a second, plain crash right after its post-recovery commits
+	cc.nverify++
+	var code int
+	var out string
+	if cc.nverify%3 == 0 {
+		code, out = child(cc.env, "crash-verify", dir, side, cc.caseFile, "crashafter")
+		if code == 0 {
+			where += "; then commits to every second key and a second crash without Close"
+			cc.res.AddObs("recoveries_followed_by_second_crash", 1)
+			code, out = child(cc.env, "crash-verify", dir, side, cc.caseFile, "second")
+		}
+	} else {
+		code, out = child(cc.env, "crash-verify", dir, side, cc.caseFile, "plain")
+	}
 	cls := fmt.Sprintf("%s:%s", cp.Op, fileClass(cp.File))
 	ctx := fmt.Sprintf("\n%s\ncrash point: #%d before %s of %s (phase %s); directory at recovery: %s\nprogram: seed %d %s writers=%d drained=%v cfg %s",
 		where, cp.N, cp.Op, cp.File, cp.Phase, listing, cc.p.Seed, cc.c.Str("flavour", "plain"), cc.p.Writers, cc.p.Drained, gen.CfgString(cc.p.Cfg))
